@@ -11,6 +11,7 @@ from . import c01, common
 OBJ_TEMPLATES = [templates.minmax_chains_program, templates.sum_chains_program, templates.inline_program, templates.math_program, templates.symmetry_program, templates.unused_program, templates.normalize_program]
 EXTRA_OBJECTIVES = [
     ":~ sk(P,I,V). [V@1,P,I]", "#minimize{ V@2,P : sk(P,_,V) }.", ":~ sh(D,L). [-L@0,D]", "#maximize{ 1@1,D : sh(D,_) }.", ":~ pr(A,Y). [Y@1,A]",
+    ":~ bonus(D,L). [L@0,D]", ":~ bonus(D,L). [L@1,D]", "#minimize{ L,D : late(D,L) }.", ":~ late(D,L). [-L@0,D]", "#minimize{ W,P : other(P,W) }.", ":~ other(P,W). [W@1,P]", ":~ oth(V,F). [F@1,V]",
     ":~ q(X,Y). [X@Y]", ":~ p(X). [X@0,X]", "#minimize{ X+Y@1,X : q(X,Y) }.", ":~ q(X,Y), not p(X). [-1@2,X,Y]", ":~ p(X). [1@1]", ":~ p(X). [1@1,X]",
 ]
 
@@ -38,7 +39,7 @@ common.install(
     corpus_traits=c01.corpus_traits,
     template=objective_template,
     mix=(3, 10, 7),
-    budgets=(1200, 48000),
+    budgets=(2000, 48000),
     decl="free",
     level_text="Exploration: differential testing of optimize on programs with objectives; the cost vector of every answer set (per priority) is compared with the source under clingo.",
 )
